@@ -66,7 +66,7 @@ def drive_p1(rec):
     cr = xtal.build_crystal(rec)
     t = {"k": "p1", "n": n, "gram": rec["gram"], "asym": [{"z": s["z"], "p": s["p"]} for s in rec["asym"]],
          "ops": [int(s.integer_code) for s in cr.space_group.symmetry_operations], "size": rec["size"], "call": rec["call"],
-         "rotated": bool(rec.get("rot") is not None), "dens_old": 0,
+         "rotated": bool(rec.get("rot") is not None), "dens_old": 0, "shared": bool(rec.get("shared")),
          "new": {"exc": "", "off": False, "gramoff": False, "number": 0, "nops": 0, "gram": [[0] * 3] * 3, "atoms": [], "dens": 0},
          "meta": {"recipe": rec, "source": "random", "nontrivial": True,
                   "impl_call": "Crystal(%d %r).%s(%s)" % (rec["number"], rec["choice"], rec["call"], rec["size"])}}
@@ -194,6 +194,12 @@ def gen(args):
             vol = max(len(row["ops"]) * len(asym) * 40.0, 120.0)
             rec = {"number": row["number"], "choice": row["choice"], "n": n, "gram": gram,
                    "u": (vol / math.sqrt(xtal.det3(gram))) ** (1 / 3.0), "asym": asym}
+        if len(rec["asym"]) >= 2 and "mols" not in rec and rng.random() < 0.45:
+            # a second occupant on the first site (mixed Cl/Br, split disorder), listed right after it - not at the end
+            first = rec["asym"][0]
+            first["occ"] = 7
+            rec["asym"].insert(1, {"z": 35 if first["z"] != 35 else 17, "p": list(first["p"]), "occ": 5, "label": "X%d" % (len(rec["asym"]) + 1)})
+            rec["shared"] = True
         rec["k"] = "p1"
         rec["call"] = rng.choice(["as_P1", "as_P1_supercell", "as_P1_supercell", "to_translational_symmetry"])
         big = len(row["ops"]) * len(rec["asym"]) > 200
